@@ -143,6 +143,48 @@ def check(run, replay=None):
                                       input={"spec": spec, "tank": nm, "time": tt, "level": lvl, "demand": q})
                         break
             run.count("tank reached a limit" if hit else "tank stayed inside")
+        # ---- the run is paused by its own simulator object, the limits of a tank are tightened around its current level, the SAME object continues:
+        #      from then on the new limits hold ----
+        if rng.random() < 0.6:
+            try:
+                import warnings as _w
+                wnp = netgen.build(spec, wntr)
+                hs_ = spec["options"]["hydraulic_timestep"]
+                T_ = spec["options"]["duration"]
+                T1 = hs_ * rng.choice([1, 2, 3])
+                wnp.options.time.duration = T1
+                simp = wntr.sim.WNTRSimulator(wnp)
+                with _w.catch_warnings():
+                    _w.simplefilter("ignore")
+                    ra = simp.run_sim()
+                    tk = rng.choice(spec["tanks"])
+                    tn = wnp.get_node(tk["name"])
+                    lvl0 = float(ra.node["head"][tk["name"]].iloc[-1]) - tk["elevation"]
+                    new_min = round(max(tk["min_level"], lvl0 - 0.15), 3)
+                    new_max = round(min(tk["max_level"], lvl0 + 0.15), 3)
+                    new_min, new_max = min(new_min, round(lvl0 - 0.002, 3)), max(new_max, round(lvl0 + 0.002, 3))      # the current level is inside the new limits
+                    if new_min < new_max - 0.05:
+                        tn.min_level, tn.max_level = new_min, new_max
+                        wnp.options.time.duration = T_
+                        rb = simp.run_sim()
+                        if simrun.converged(rb, None, []):
+                            run.count("limits tightened during a pause")
+                            Hb, Db = rb.node["head"], rb.node["demand"]
+                            A_ = 3.141592653589793 * tk["diameter"] ** 2 / 4
+                            qmax = max([abs(float(x)) for x in ra.node["demand"][tk["name"]].values] + [0.0])
+                            for tt in [int(x) for x in Hb.index]:
+                                lvl = float(Hb.loc[tt, tk["name"]]) - tk["elevation"]
+                                q = float(Db.loc[tt, tk["name"]])
+                                qmax = max(qmax, abs(q))
+                                slack = 2.0 * qmax / A_ + 1e-6
+                                run.case({"net": done, "t": tt, "paused": True}, True, None)
+                                if lvl < new_min - slack or lvl > new_max + slack:
+                                    run.violation("tank_level_outside_limits", "tank %s level %.4f at t=%d is outside the limits [%.3f, %.3f] set while the run was paused at %d s (slack %.2g m)" % (
+                                        tk["name"], lvl, tt, new_min, new_max, T1, slack),
+                                        input={"spec": spec, "tank": tk["name"], "time": tt, "level": lvl, "paused_at": T1, "new_limits": [new_min, new_max], "same_simulator_object": True})
+                                    break
+            except Exception as e_:   # noqa
+                run.count("pause-edit scenario failed: " + type(e_).__name__)
     res_, errors = common.run_prop_cases("C06", HEADER, TACTIC, cases, shard=150, case_timeout=20)
     for e in errors:
         run.tie_broken("correspondence case file failed to compile", e)
